@@ -78,7 +78,7 @@ function exportForm(inst, id, report) {
   const f = {
     id, name: inst.name, arch: inst.arch, enc: inst.encoding, pk: "L", ok: true, why: "", ops_s: "",
     opcode: inst.opcodeString, p66: 0, pF2: 0, pF3: 0, np: 0, fw: 0, a67: 0, w: 0, l: 0, pp: 0, mm: 0, opb: [], plusr: 0,
-    modrm: 0, digit: -1, modreq: 0, rmfix: -1, imms: [], is4: 0, rel: 0, moff: 0, osz: 32, ops: [],
+    modrm: 0, digit: -1, modreq: 0, rmfix: -1, sfx: -1, imms: [], is4: 0, rel: 0, moff: 0, osz: 32, ops: [],
     tt: inst.tupleType || "", esz: 0, k: inst.kmask ? 1 : 0, z: inst.zmask ? 1 : 0, er: inst.er ? 1 : 0, sae: inst.sae ? 1 : 0, bc: 0,
     lock: 0, rep: 0, repne: 0, xacq: 0, xrel: 0, ext: Object.keys(inst.ext || {}).join(","),
   };
@@ -151,18 +151,19 @@ function exportForm(inst, id, report) {
       else if (t === "NOREP" || t === "NO67") { /* restriction on optional prefixes only */ }
       else break;
     }
-    if (!explicitW && !f.p66 && (gp === "rv" || gp === "ry")) {
+    if (!explicitW && !f.p66 && gp === "rv") {
       // operand-size group: 16-bit member takes the operand-size prefix, 64-bit member REX.W (SDM vol.2 2.2.1.2 / 3.1.1.1)
-      if (gp === "rv") { if (gi === 0) f.p66 = 1; if (gi === 2) f.w = 1; }
-      if (gp === "ry") { if (gi === 1) f.w = 1; }
+      if (gi === 0) f.p66 = 1;
+      if (gi === 2) f.w = 1;
     }
-    if (inst.prefix === "3DNOW") bad("3DNow! (opcode suffix byte) is not modelled");
+    if (!explicitW && gp === "ry" && gi === 1) f.w = 1;      // r32/r64 group: a stated 66 is a mandatory prefix there (adcx, aand, ...), the 64-bit member takes REX.W
   }
   // opcode bytes and the rest
   for (; ti < toks.length; ti++) {
     const t = toks[ti];
     let mm;
     if (/^[0-9A-F]{2}$/.test(t) && !f.modrm && !f.imms.length) f.opb.push(parseInt(t, 16));
+    else if (/^[0-9A-F]{2}$/.test(t) && f.modrm && inst.prefix === "3DNOW" && f.sfx < 0) f.sfx = parseInt(t, 16);   // 3DNow!: opcode byte after ModRM/SIB/disp
     else if ((mm = /^([0-9A-F]{2})\+[ri]$/.exec(t))) { f.opb.push(parseInt(mm[1], 16)); f.plusr = 1; }
     else if (t === "/r") f.modrm = 1;
     else if ((mm = /^\/([0-7])$/.exec(t))) { f.modrm = 1; f.digit = +mm[1]; }
@@ -218,9 +219,10 @@ function exportForm(inst, id, report) {
       else if (/^vm(32|64)[xyz]$/.test(a)) { r.msz = 0; r.vsib = a[4] + "mm"; r.vsz = +a.substr(2, 2); }
       else if (a in MEM_SIZES) {
         r.msz = MEM_SIZES[a];
-        if (a === "tmem") bad("AMX tile memory operand (mandatory SIB) is not modelled");
-        if (a === "mib") bad("MPX mib operand is not modelled");
-        if (/^m16_/.test(a)) bad("far pointer operand is not modelled");
+        if (a === "mib" && f.rmfix < 0) {
+          f.rmfix = 4;      // SDM vol.2 BNDLDX/BNDSTX: "mib" is a SIB-form memory operand (ModRM.rm = 100), anything else is #UD
+          report.quirks_applied.push({ form: id, name: inst.name, db_opcode: opstr, used: opstr + " (ModRM.rm=100)", why: "SDM vol.2 BNDLDX/BNDSTX: mib operand requires SIB addressing", operands: inst.operands.map(x => x.data).join(", ") });
+        }
       }
       else if (/^imm[su]?\d+$/.test(a)) {
         r.ibits = +/(\d+)$/.exec(a)[1];
@@ -245,16 +247,23 @@ function exportForm(inst, id, report) {
     if (r.ibits) {
       if (r.ibits === 4) { r.fld = "imm4"; if (!f.is4) bad("imm4 without /is4"); }
       else {
-        if (f.opb.length && immFieldCount === 2 && /^(lcall|ljmp)$/.test(inst.name)) bad("far pointer operand is not modelled");
         r.fld = "imm"; immIndex++; r.immi = immIndex;
+        // direct far pointer ptr16:16 / ptr16:32 - operands are (selector, offset), the bytes are offset then selector (SDM vol.2 CALL/JMP far)
+        if (immFieldCount === 2 && /^(lcall|ljmp)$/.test(inst.name)) r.immi = 3 - immIndex;
         if (immIndex > immFieldCount) bad("more immediate operands than immediate fields");
-        else if (f.imms[immIndex - 1] * 8 !== r.ibits && !(r.ibits === 32 && f.imms[immIndex - 1] === 4)) bad("immediate operand / field size mismatch");
+        else if (f.imms[r.immi - 1] * 8 !== r.ibits && !(r.ibits === 32 && f.imms[r.immi - 1] === 4)) bad("immediate operand / field size mismatch");
         r.iw = r.isgn === "s" ? (r.ibits === 32 ? 64 : f.osz) : r.ibits;
       }
     } else if (r.rbits) {
       r.fld = "rel"; if (!f.rel) bad("rel operand without cb/cw/cd");
     } else if (o.memOff) {
       r.fld = "moff"; if (!f.moff) bad("moff operand without moff token");
+    } else if (r.memreg && /^r(32|64)$/.test(r.memreg) && !r.imp) {
+      // memory operand addressed by ONE register that is encoded as a register number (enqcmd/movdir64b: ModRM.reg, umonitor: ModRM.rm with mod=11);
+      // the address size is the size of that register
+      const L = letters.length ? letters.shift() : "M";
+      r.fld = L === "R" ? "regmem" : "rmmem";
+      if (r.fld === "rmmem") { if (f.modreq === 2) bad("register-addressed memory in ModRM.rm with mod != 11"); f.modreq = 1; }
     } else if (r.imp || r.iconst >= 0 || (r.fixed >= 0 && r.msz < 0) || r.memreg) {
       r.fld = "none";
       if (r.memreg && !/^z(ax|di|si)$/.test(r.memreg) && !r.imp) bad("register-addressed memory operand notation (" + r.memreg + ") is not modelled");
@@ -273,12 +282,13 @@ function exportForm(inst, id, report) {
     if ((r.fld === "rm" || r.fld === "reg") && !f.modrm) bad("ModRM operand without ModRM token");
     if (r.fld === "is4" && !f.is4) bad("is4 operand without /is4");
     if (r.fld === "vvvv" && f.pk === "L") bad("vvvv operand in a legacy encoded form");
+    if (r.fld === "regmem" && !f.modrm) bad("ModRM operand without ModRM token");
     if (r.msz >= 0 && !r.memreg && r.fld !== "rm" && r.fld !== "moff" && r.fld !== "none") bad("memory operand outside ModRM.rm");
     f.ops.push(r);
   }
   if (letters.length) bad("encoding letters left over: " + letters.join(""));
   if (immIndex !== immFieldCount) bad("immediate fields without operand");
-  const flds = f.ops.map(x => x.fld).filter(x => /^(reg|rm|vvvv|is4|opr)$/.test(x));
+  const flds = f.ops.map(x => x.fld === "regmem" ? "reg" : x.fld === "rmmem" ? "rm" : x.fld).filter(x => /^(reg|rm|vvvv|is4|opr)$/.test(x));
   if (new Set(flds).size !== flds.length) bad("two operands claim the same field");
   if (f.plusr && !flds.includes("opr")) bad("+r opcode without register operand");
   if (f.rel && !f.ops.some(x => x.fld === "rel")) bad("rel field without operand");
